@@ -496,6 +496,51 @@ class _Owned:
         self.ns.randrange = self.real
 
 
+class _Watchdog:
+    """A case of the solver family that does not return within `seconds` is reported as a violation (a broken ring operation
+    can make the Euclidean gcd loop forever); never used to truncate the exploration."""
+
+    def __init__(self, seconds=60):
+        self.seconds = seconds
+
+    def __enter__(self):
+        import signal
+        import threading
+
+        self.active = threading.current_thread() is threading.main_thread()
+        if self.active:
+            def fire(*_):
+                raise TimeoutError(f"no result within {self.seconds}s")
+
+            self.old = signal.signal(signal.SIGALRM, fire)
+            signal.setitimer(signal.ITIMER_REAL, self.seconds)
+        return self
+
+    def __exit__(self, *a):
+        import signal
+
+        if self.active:
+            signal.setitimer(signal.ITIMER_REAL, 0)
+            signal.signal(signal.SIGALRM, self.old)
+        return False
+
+
+def _guard(fn):
+    """run a solver-family check under the watchdog; TimeoutError (an OSError subclass, i.e. 'harness error' for the engine) is
+    converted into a proper violation here."""
+    import functools
+
+    @functools.wraps(fn)
+    def wrapped(spec):
+        try:
+            with _Watchdog():
+                return fn(spec)
+        except TimeoutError as e:
+            return bad(f"{fn.__name__}:does-not-terminate", str(e), "a result")
+
+    return wrapped
+
+
 def _nonneg(a, b):
     """a + b sqrt2 >= 0, decided in integers."""
     if a >= 0 and b >= 0:
@@ -505,6 +550,7 @@ def _nonneg(a, b):
     return a * a >= 2 * b * b if a >= 0 else 2 * b * b >= a * a
 
 
+@_guard
 def check_solve(spec):
     from mc import x_rings as R
     from mc.explore import answer_tree
@@ -553,6 +599,7 @@ def check_solve(spec):
     return ok([doubly, leaves, solved, none, exc, max_draws], nontrivial=solved > 0 or max_draws > 0)
 
 
+@_guard
 def check_factorize(spec):
     """_prime_factorize on every n in [lo, hi) under the scripted randrange (bound 1): a returned list is THE prime factorisation;
     None only if a prime factor = 7 (mod 8) exists (z_sqrt_two=True) or the trial budget was exhausted."""
@@ -587,6 +634,7 @@ def check_factorize(spec):
     return ok(stats, nontrivial=True)
 
 
+@_guard
 def check_sqrt_mod(spec):
     """_sqrt_modulo_p(n, p) for every n in [-p, 2p] : r*r = n (mod p) or None iff n is a non-residue."""
     from pennylane.ops.op_math.decompositions import norm_solver as ns
@@ -606,6 +654,7 @@ def check_sqrt_mod(spec):
     return ok([p % 8, cnt], nontrivial=p > 2)
 
 
+@_guard
 def check_prime_split(spec):
     """_factorize_prime_zsqrt_two(p): the factors are elements of Z[sqrt2] whose product is +-p (p = 2, 1, 7 mod 8) or p itself;
     _gcd on ring elements returns a common divisor."""
